@@ -363,11 +363,28 @@ def load_exemptions():
         return json.load(f)["exemptions"]
 
 
+def canon_range(subject, rg):
+    """a[x..], a[..y], a[..], a[x..a.len()], a[0..y] all as Range{x, y}: the spelling of a slice expression is not part of its identity"""
+    a = agg_variant(rg)
+    if not a or a[1] not in ("Range", "RangeFrom", "RangeTo", "RangeFull"):
+        return rg
+    zero = ("const", "usize", 0)
+    ln = ("call", "core::slice::<impl [T]>::len", (), (strip_refs(subject),), None)
+    lo = a[2][0] if a[1] in ("Range", "RangeFrom") else zero
+    hi = a[2][1] if a[1] == "Range" else (a[2][0] if a[1] == "RangeTo" else ln)
+    if is_call(strip_refs(hi), "::len") and strip_refs(call_args(strip_refs(hi))[0]) == strip_refs(subject):
+        hi = ln
+    return ("agg", "adt", "std::ops::Range", "Range", (lo, hi), ("start", "end"))
+
+
 def fingerprint(body, ev, kind):
     if ev.kind == "assert":
         txt = kind + "|" + "|".join(named(body, m) for m in ev.mops)
     else:
-        txt = kind + "|" + "|".join(named(body, a) for a in ev.args)
+        args = list(ev.args)
+        if kind.split("::")[-1] in ("index", "index_mut") and len(args) == 2:
+            args[1] = canon_range(args[0], args[1])
+        txt = kind + "|" + "|".join(named(body, a) for a in args)
     return hashlib.sha1(txt.encode()).hexdigest()[:12], txt
 
 
@@ -553,7 +570,7 @@ def termination(ctx):
                         worst = named(body, v)[:120]
                 # the exit test compares the cursor with the length
                 ex = [p for p in paths if p.end[0] == "return"]
-                okx = bool(ex) and all(any(isinstance(c.term, tuple) and c.term[0] == "binop" and c.term[1] == "Eq" and is_call(c.term[3], "str>::len", "String::len") for c in p.conds()) for p in ex)
+                okx = bool(ex) and all(any(isinstance(c.term, tuple) and c.term[0] == "binop" and c.term[1] in ("Eq", "Ne", "Lt", "Ge") and is_call(c.term[3], "str>::len", "String::len") for c in p.conds()) for p in ex)
                 ctx.check(ok and okx, "TERM", key, "loop[registered:cursor-advances]", "every back-edge path advances the cursor by a positive amount (%d paths)" % len(backs),
                           "the scanning loop has a back-edge path that does not advance the cursor by a positive amount (%s): the tokeniser can loop forever" % worst, body.span_of(h))
                 continue
